@@ -2054,7 +2054,10 @@ export class ObjectRuntype extends BaseRuntype {
       popPath(ctx);
     }
 
-    const required = Object.keys(this.properties).filter((k) => !optionalized.has(k));
+    // an optional property stays optional even when its schema has no non-null branch to keep (e.g. `p?: null`)
+    const required = Object.keys(this.properties).filter(
+      (k) => !optionalized.has(k) && !(this.properties[k] instanceof OptionalFieldRuntype),
+    );
     const base: JSONSchema7 = {
       type: "object",
       properties,
